@@ -91,6 +91,38 @@ class Ctx:
         self.functions.add(body.defpath)
         return body
 
+    def borrow(self, pack, mapping):
+        """Evaluate rules of another pack as rules of this property: `mapping` = {their rule id: (our rule id, description or None)}. The other pack's
+        run() is executed against a view of this context in which only the mapped rules record anything. Used where one mechanism is a necessary
+        condition of two properties (e.g. the incremental Recon parser for C09 and for every decoder of C10 built on it)."""
+        outer = self
+
+        class _Null(Rule):
+            def _add(self, verdict, key, where, detail, extra=None):
+                return {}
+
+            def finish(self):
+                return None
+
+        class _View:
+            def __getattr__(self, nm):
+                return getattr(outer, nm)
+
+            def rule(self, rid, template, desc, floor=1):
+                if rid in mapping:
+                    ours, d2 = mapping[rid]
+                    r = Rule(outer, ours, template, d2 or desc, floor)
+                    outer.rules.append(r)
+                    return r
+                return _Null(outer, rid, template, desc, 0)
+
+            def saw(self, body):
+                return body
+
+            def borrow(self, pack, mapping):
+                return None
+        pack.run(_View())
+
 
 def load_known():
     p = os.path.join(VERIF, "known_findings.json")
